@@ -108,11 +108,43 @@ func charEdits(w *W, s string, m *strMeta, visit strVisitor) {
 			}
 			visit(w, s[:p]+fmt.Sprintf("%%%02X", c)+s[p+1:], m)
 			visit(w, s[:p]+fmt.Sprintf("%%%02x", c)+s[p+1:], m)
+			// the character written in other escape notations: HTML / XML character references, backslash
+			// and Unicode escapes, quoted-printable
+			for _, e := range escapesOf(c) {
+				visit(w, s[:p]+e+s[p+1:], m)
+			}
 		}
+	}
+	// every occurrence of one character written as an escape (a feed that escapes '/' or ':' does so everywhere)
+	for _, c := range []byte{'/', ':', '.', 'A', 'N'} {
+		if strings.IndexByte(s, c) < 0 {
+			continue
+		}
+		for _, e := range escapesOf(c) {
+			visit(w, strings.ReplaceAll(s, string(c), e), m)
+		}
+		visit(w, strings.ReplaceAll(s, string(c), fmt.Sprintf("%%%02X", c)), m)
 	}
 	for _, a := range editAlphabet {
 		visit(w, s+a, m)
 	}
+}
+
+// escapesOf lists how other notations write the ASCII character c.
+func escapesOf(c byte) []string {
+	out := []string{fmt.Sprintf("&#%d;", c), fmt.Sprintf("&#x%X;", c), fmt.Sprintf("&#x%x;", c), fmt.Sprintf("&#%03d;", c), fmt.Sprintf("\\x%02x", c), fmt.Sprintf("\\u%04x", c),
+		fmt.Sprintf("\\%03o", c), fmt.Sprintf("=%02X", c), fmt.Sprintf("U+%04X", c), "\\" + string(c)}
+	switch c {
+	case '/':
+		out = append(out, "&sol;", "&frasl;", "\u2215", "\u2044")
+	case ':':
+		out = append(out, "&colon;", "\ua789", "\u2236")
+	case '.':
+		out = append(out, "&period;")
+	case '&':
+		out = append(out, "&amp;")
+	}
+	return out
 }
 
 func without(toks []string, i int) []string {
@@ -662,5 +694,27 @@ func lengthSweep(v2 bool, big bool) []string {
 			}
 		}
 	}
+	// whole inputs, first tokens and later tokens that consist of (or begin with) long runs of one byte class
+	for _, m := range []int{64, 127, 128, 129, 130, 200, 255, 256, 257, 300, 1000} {
+		for _, b := range []string{"\x80", "\xbf", "\xc3", "\xff", "\x00", " ", "\xe3\x81\x82"} {
+			run := strings.Repeat(b, m)
+			out = append(out, run, run+"/"+valid, run+prefix+valid, prefix+run+"/"+valid, prefix+valid+"/"+run, run+":"+run, "CVSS:"+run, "CVSS:3."+run+"/"+valid)
+		}
+	}
 	return out
 }
+
+// wrapInts are integers v for which v*k or v+k wraps around 2^64 / 2^63 for a small k (an index computed as
+// v*width+column, a key packed by multiplication): (2^64)/k and (2^63)/k with their neighbourhoods, both signs.
+var wrapInts = func() []int {
+	var out []int
+	for k := uint64(2); k <= 24; k++ {
+		for _, base := range []uint64{^uint64(0) / k, (1 << 63) / k, (^uint64(0)/k + 1)} {
+			for d := -40; d <= 40; d++ {
+				u := base + uint64(int64(d))
+				out = append(out, int(u), -int(u))
+			}
+		}
+	}
+	return out
+}()
